@@ -22,16 +22,19 @@ func init() {
 }
 
 type cliCase struct {
-	name     string
-	files    map[string]string
-	args     []string
-	env      []string
-	wantExit []int    // acceptable exit statuses
-	mustRun  []string // trace lines that must be present
-	mustNot  []string // trace lines that must be absent
-	sig      string
-	limits   bool // run under ulimit -v / -t
-	quiet    bool // stdout and stderr must be free of task-specific complaints (platform skip)
+	name      string
+	files     map[string]string
+	args      []string
+	env       []string
+	wantExit  []int    // acceptable exit statuses
+	mustRun   []string // trace lines that must be present
+	mustNot   []string // trace lines that must be absent
+	sig       string
+	prep      [][]string // invocations run first in the same directory (their outcome is not judged), e.g. to build state
+	prepRm    []string   // files removed after prep, before the judged invocation
+	prepTouch []string   // files created before prep
+	limits    bool       // run under ulimit -v / -t
+	quiet     bool       // stdout and stderr must be free of task-specific complaints (platform skip)
 }
 
 func probe(s string) string {
@@ -46,6 +49,15 @@ func runCliCases(id, scratch, bin string, cases []cliCase, part *h.Partial) map[
 		defer os.RemoveAll(dir)
 		h.WriteTree(dir, c.files)
 		trace := filepath.Join(dir, ".trace")
+		for _, f := range c.prepTouch {
+			os.WriteFile(filepath.Join(dir, f), []byte("x\n"), 0o644)
+		}
+		for _, pa := range c.prep {
+			h.CLI{Bin: bin, Dir: dir, Args: pa, Env: []string{"VERIF_TRACE=" + trace + ".prep"}, Timeout: 120 * time.Second}.Run()
+		}
+		for _, f := range c.prepRm {
+			os.Remove(filepath.Join(dir, f))
+		}
 		cli := h.CLI{Bin: bin, Dir: dir, Args: c.args, Env: append([]string{"VERIF_TRACE=" + trace}, c.env...), Timeout: 300 * time.Second}
 		if c.limits {
 			// 4 GiB of address space, 120 s of CPU
@@ -193,6 +205,23 @@ func cliC03(scratch string, part *h.Partial) map[string]any {
 			}
 		}
 	}
+	// --parallel: the status is the failing command's, wherever the failing task is listed
+	busy := yamlq(`i=0; while [ $i -lt 3000 ]; do i=$((i+1)); done; printf 'busy-done\n' >> "$VERIF_TRACE"`)
+	for _, code := range codes {
+		for _, order := range [][]string{{"slow", "failing"}, {"failing", "slow"}, {"slow", "slow2", "failing"}} {
+			tf := hdr + "  slow:\n    cmds:\n      - " + busy + "\n  slow2:\n    cmds:\n      - " + busy + "\n  failing:\n    cmds:\n      - " + failCmd(code) + "\n"
+			cases = append(cases,
+				cliCase{name: fmt.Sprintf("parallel %v code=%d -x", order, code), files: map[string]string{"Taskfile.yml": tf}, args: append([]string{"--parallel", "-x"}, order...),
+					wantExit: []int{code}, mustRun: []string{"F"}, sig: fmt.Sprintf("pos=parallel-roots x=true failing-listed-%d-of-%d", indexOf(order, "failing")+1, len(order))},
+				cliCase{name: fmt.Sprintf("parallel %v code=%d", order, code), files: map[string]string{"Taskfile.yml": tf}, args: append([]string{"--parallel"}, order...),
+					wantExit: []int{201}, mustRun: []string{"F"}, sig: fmt.Sprintf("pos=parallel-roots x=false failing-listed-%d-of-%d", indexOf(order, "failing")+1, len(order))})
+		}
+		// a dep failing while a sibling dep is busy: still the task-run status / the command's code
+		tf := hdr + "  root:\n    deps: [slow, failing]\n    cmds:\n      - " + probe("post") + "\n  slow:\n    cmds:\n      - " + busy + "\n  failing:\n    cmds:\n      - " + failCmd(code) + "\n"
+		cases = append(cases,
+			cliCase{name: fmt.Sprintf("dep fails next to a busy sibling code=%d -x", code), files: map[string]string{"Taskfile.yml": tf}, args: []string{"-x", "root"}, wantExit: []int{code}, mustRun: []string{"F"}, mustNot: []string{"post"}, sig: "pos=dep-busy-sibling x=true"},
+			cliCase{name: fmt.Sprintf("dep fails next to a busy sibling code=%d", code), files: map[string]string{"Taskfile.yml": tf}, args: []string{"root"}, wantExit: []int{201}, mustRun: []string{"F"}, mustNot: []string{"post"}, sig: "pos=dep-busy-sibling x=false"})
+	}
 	// ignore_error suppresses exactly that command / that task's own commands and leaves the status alone
 	for _, code := range codes {
 		tf := hdr + "  root:\n    cmds:\n      - cmd: " + yamlq(fmt.Sprintf(`printf 'F\n' >> "$VERIF_TRACE"; exit %d`, code)) + "\n        ignore_error: true\n      - " + probe("post") + "\n"
@@ -248,6 +277,8 @@ func cliC07(scratch string, part *h.Partial) map[string]any {
 	add("once-three-cycle", "  a:\n    deps: [x]\n  x:\n    run: once\n    deps: [y]\n  y:\n    run: when_changed\n    cmds:\n      - task: z\n  z:\n    run: once\n    deps: [x]\n")
 	add("once-cross-wait", "  a:\n    deps: [x, y]\n  x:\n    run: once\n    deps: [y]\n  y:\n    run: once\n    deps: [x]\n")
 	add("once-self-dep", "  a:\n    deps: [b]\n  b:\n    run: once\n    deps: [b]\n")
+	add("alias-cycle", "  a:\n    aliases: [x]\n    deps: [y]\n  b:\n    aliases: [y]\n    deps: [x]\n")
+	add("alias-call-cycle", "  a:\n    aliases: [x]\n    cmds:\n      - task: y\n  b:\n    aliases: [y]\n    cmds:\n      - task: x\n")
 	add("wildcard-cycle", "  a:\n    deps: ['w-1']\n  'w-*':\n    deps: ['w-{{index .MATCH 0}}']\n")
 	return runCliCases("C07", scratch, bin, cases, part)
 }
@@ -366,6 +397,40 @@ func cliC13(scratch string, part *h.Partial) map[string]any {
 				wantExit: wantRoot, mustRun: mustG, mustNot: mustNotG, sig: "guard=" + g.name + " pos=parallel-root"})
 		}
 	}
+	// the guarded dep is declared after a sibling that is still busy when the guard fails: the status is still the guard's
+	busy13 := yamlq(`i=0; while [ $i -lt 3000 ]; do i=$((i+1)); done`)
+	for _, g := range guards {
+		if strings.HasPrefix(g.name, "platform-") || g.code <= 0 {
+			continue
+		}
+		tf := hdr + "  top:\n    deps:\n      - task: sib\n      - task: guarded\n" + callVars(g) + "    cmds:\n      - " + probe("after") + "\n  sib:\n    cmds:\n      - " + busy13 + "\n" + guardedBody(g)
+		cases = append(cases, cliCase{name: g.name + " @dep-after-busy-sibling", files: map[string]string{"Taskfile.yml": tf}, args: []string{"top"},
+			wantExit: []int{g.code}, mustNot: []string{"G1", "G2", "after"}, sig: "guard=" + g.name + " pos=dep-after-busy-sibling"})
+	}
+	// a precondition that stops holding on a task that is otherwise up to date (sources / status): the invocation still fails
+	for _, kind := range []string{"sources", "status"} {
+		body := "    sources: ['in.txt']\n"
+		if kind == "status" {
+			body = "    status: ['test -f done.flag']\n"
+		}
+		gtask := "  guarded:\n" + body + "    preconditions:\n      - sh: 'test -f pre.ok'\n        msg: precondition\n    cmds:\n      - " + probe("G1") + "\n      - cmd: ': > done.flag'\n"
+		for _, pos := range []string{"root", "dep", "call"} {
+			tf := hdr + gtask
+			args := []string{"guarded"}
+			mustNot := []string{"G1"}
+			switch pos {
+			case "dep":
+				tf += "  top:\n    deps: [guarded]\n    cmds:\n      - " + probe("after") + "\n"
+				args, mustNot = []string{"top"}, []string{"G1", "after"}
+			case "call":
+				tf += "  top:\n    cmds:\n      - task: guarded\n      - " + probe("after") + "\n"
+				args, mustNot = []string{"top"}, []string{"G1", "after"}
+			}
+			cases = append(cases, cliCase{name: "precondition fails on an up-to-date task (" + kind + ") @" + pos, files: map[string]string{"Taskfile.yml": tf, "in.txt": "x\n"},
+				prepTouch: []string{"pre.ok"}, prep: [][]string{{"guarded"}}, prepRm: []string{"pre.ok"}, args: args,
+				wantExit: nonZero(), mustNot: mustNot, sig: "guard=precondition-on-up-to-date-" + kind + " pos=" + pos})
+		}
+	}
 	// a deduplicated guarded task whose first, failing, execution was tolerated (deferred call: errors are
 	// ignored) must still fail a later caller
 	for _, g := range guards {
@@ -413,6 +478,15 @@ func cliC13(scratch string, part *h.Partial) map[string]any {
 		cliCase{name: "internal --parallel", files: map[string]string{"Taskfile.yml": tf}, args: []string{"--parallel", "user", "hidden"}, wantExit: []int{202}, mustNot: []string{"H", "U"}, sig: "guard=internal pos=parallel-root"},
 	)
 	return runCliCases("C13", scratch, bin, cases, part)
+}
+
+func indexOf(s []string, x string) int {
+	for i, v := range s {
+		if v == x {
+			return i
+		}
+	}
+	return -1
 }
 
 func otherArch() string {
